@@ -968,15 +968,12 @@ Proof.
   intros c ops; unfold qrun_case, qfinal.
   destruct (qrun_account c ops qinit) as (A & B & C & D & E).
   destruct (qrun c qinit ops) as [sf outs]; simpl in *.
-  repeat split; intros H; rewrite ?H; simpl.
+  split; [|split; [|split; [|split]]]; intros H; rewrite ?H; simpl.
   - intros H0. specialize (C H H0). lia.
   - specialize (D (or_introl H)). lia.
-  - auto.
-  - specialize (D (or_intror H)). lia.
-  - apply E; auto.
-  - lia.
-  - apply E; auto.
-  - auto.
+  - specialize (D (or_intror H)). split; [auto | lia].
+  - split; [apply E; auto | lia].
+  - split; [apply E; auto | auto].
 Qed.
 
 (** ** SegmentedQueue *)
